@@ -267,6 +267,31 @@ func (r *Result) budgetMatches(t *Tables, used map[string]bool, open []int) map[
 			out[i] = e
 			continue
 		}
+		// a function-wide entry "rule|fn|*" (a class invariant that holds throughout fn) also holds
+		// in a helper the edit carved out of fn: a function the reference tree does not have,
+		// statically called from fn
+		covered := false
+		for _, e := range t.Reviewed {
+			if !strings.HasSuffix(e.Key, "|*") || r.RefFuncs == nil || r.RefFuncs[fn] {
+				continue
+			}
+			parts := strings.Split(strings.TrimSuffix(e.Key, "|*"), "|")
+			if len(parts) != 2 {
+				continue
+			}
+			erule, efn := parts[0], parts[1]
+			if erule != rule && !(strings.HasPrefix(erule, "*.") && strings.HasSuffix(rule, erule[1:])) {
+				continue
+			}
+			if r.calledFrom(fn, efn, 2) {
+				out[i] = e
+				covered = true
+				break
+			}
+		}
+		if covered {
+			continue
+		}
 		for _, e := range t.Reviewed {
 			if used[e.Key] || taken[e.Key] || strings.HasSuffix(e.Key, "|*") {
 				continue
